@@ -34,10 +34,41 @@ func sameInts(a, b []int) bool {
 	return true
 }
 
+// heldAt remembers a result of At that the monitor keeps, untouched, while
+// further queries run: a result that is really a recycled buffer changes
+// under the monitor's feet.
+type heldAt struct {
+	pos  int
+	got  []int
+	want []int
+}
+
+func (h *heldAt) verify(k *K) bool {
+	if h.got != nil && !sameInts(h.got, h.want) {
+		k.Failf("at-result-not-stable", "the slice returned by At(%d) was %v when returned and reads %v after later At calls", h.pos, h.want, h.got)
+		return false
+	}
+	return true
+}
+
 // checkAt queries position i, compares with the scan, scribbles over the
 // result and queries again.
 func checkAt(k *K, idx *regions.Index, starts, ends []int, i int) bool {
+	return checkAtHeld(k, idx, starts, ends, i, nil)
+}
+
+func checkAtHeld(k *K, idx *regions.Index, starts, ends []int, i int, held *heldAt) bool {
 	want := refAt(starts, ends, i)
+	if held != nil && len(want) > 0 {
+		// a result kept untouched across the following queries
+		h := idx.At(i)
+		if sameInts(h, want) {
+			if !held.verify(k) {
+				return false
+			}
+			*held = heldAt{pos: i, got: h, want: want}
+		}
+	}
 	got := idx.At(i)
 	if !sameInts(got, want) {
 		k.Input("query", i)
@@ -230,11 +261,24 @@ func c16Random(c *Ctx) {
 					k.Count("empty_or_inverted_intervals", 1)
 				}
 			}
+			// a second, independent index queried in between (state must not leak between instances)
+			starts2, ends2 := genIntervals(r)
+			ix2 := regions.NewIndex(starts2, ends2)
+			var held, held2 heldAt
 			for _, q := range queryPoints(r, starts, ends) {
-				if !checkAt(k, ix, starts, ends, q) {
+				if !checkAtHeld(k, ix, starts, ends, q, &held) {
 					return
 				}
+				if r.IntN(3) == 0 {
+					if !checkAtHeld(k, ix2, starts2, ends2, q, &held2) {
+						return
+					}
+				}
 			}
+			if !held.verify(k) || !held2.verify(k) {
+				return
+			}
+			k.Count("held_results_verified", 1)
 			if len(starts) >= 2 && nonEmpty >= 1 {
 				k.Nontrivial([]byte(fmt.Sprint(starts)), []byte(fmt.Sprint(ends)))
 			}
